@@ -288,6 +288,33 @@ func runC17(o *hx.Out, r *hx.Rand, thorough bool) {
 				o.Violate("the options an interceptor was shown for one call changed when a later call was made", map[string]interface{}{"first_call_options": first, "same_slice_after_second_call": again}, again, first)
 			}
 		}
+		// every call made on an intercepted channel goes through its interceptor once, whatever context it is made
+		// with: also a context that an earlier call on the same channel handed to the interceptor (an interceptor
+		// that makes a side call of its own, a follow-up call made with a stream's context)
+		{
+			seenCalls := 0
+			var given context.Context
+			var self grpc.ClientConnInterface
+			self = grpchan.InterceptClientConn(base, func(ctx context.Context, method string, req, reply interface{}, cc *grpc.ClientConn, invoker grpc.UnaryInvoker, opts ...grpc.CallOption) error {
+				seenCalls++
+				if given == nil {
+					given = ctx
+					// a side call of the interceptor's own, on its own channel, with the context it was given
+					self.Invoke(ctx, "/verif.Svc/U", &hx.Msg{Count: 2}, &hx.Msg{})
+				}
+				return invoker(ctx, method, req, reply, cc, opts...)
+			}, nil)
+			self.Invoke(context.Background(), "/verif.Svc/U", &hx.Msg{Count: 1}, &hx.Msg{})
+			if given != nil {
+				self.Invoke(given, "/verif.Svc/U", &hx.Msg{Count: 3}, &hx.Msg{}) // a later call made with that context
+			}
+			l.take()
+			if seenCalls != 3 {
+				identOK = false
+				o.Violate("a call made with a context that an earlier call handed to the interceptor did not go through the interceptor exactly once",
+					map[string]interface{}{"calls_made": 3, "calls_seen_by_the_interceptor": seenCalls}, seenCalls, 3)
+			}
+		}
 		var lt []string
 		for _, ly := range layers {
 			f := func(s *cscript) string {
